@@ -5,7 +5,15 @@ REALS = ["axioms of Coq's Reals (via Print Assumptions): ClassicalDedekindReals.
          "ClassicalDedekindReals.sig_not_dec, FunctionalExtensionality.functional_extensionality_dep, "
          "Classical_Prop.classic"]
 
+DYN_TRUST = REALS + ["hand-written element-layer model Blocks.v (tied by the dynamics correspondence: expression trees "
+                     "printed by Coq, evaluated in floats, against NumPy step and CasADi functions)",
+                     "wf_graph (node ids unique, edge ends are nodes) is an invariant of the construction model "
+                     "(C09) and validb is the validation model (C06)"]
+
 PROPS = {
+    "C01": dict(prop_file="props/C01.v", generators=ENG, module="harness.p_dyn",
+                slice="Blocks.v trees (both generated engines) vs NumPy step and CasADi SX/MX functions",
+                trusted=DYN_TRUST),
     "C15": dict(prop_file="props/C15.v", generators=ENG, module="harness.p_prims",
                 slice="generated primitive definitions (expression trees) vs direct calls of both engines",
                 trusted=REALS + ["float-level agreement of numpy.power / casadi pow etc. is dynamic only"]),
